@@ -58,7 +58,9 @@ def body(ctx, conv, shape, bounds, layout, nan_cells=None, mesh_opts=None, mode=
         return a
     temp, u, v = sym('t', 10.0), sym('u', 100.0), sym('v', 200.0)
     data = {'temp': (tuple(ddims), temp), 'u': (tuple(ddims), u), 'v': (tuple(ddims), v),
-            'deep': (('k',) + tuple(ddims), numpy.zeros((2,) + dshape))}
+            'deep': (('k',) + tuple(ddims), numpy.zeros((2,) + dshape)),
+            # a leftover dimension is a leftover dimension, also when a single layer / time step is left in it
+            'single': (tuple(ddims) + ('one',), numpy.zeros(dshape + (1,)))}
     # a variable on another grid of the same dataset (more elements than there are faces)
     other_grid = None
     if conv == 'shoc_standard':
@@ -148,6 +150,11 @@ def body(ctx, conv, shape, bounds, layout, nan_cells=None, mesh_opts=None, mode=
             ctx.check(False, 'a variable with leftover dimensions is refused with ValueError')
         except ValueError:
             ctx.check(True, 'a variable with leftover dimensions is refused with ValueError')
+        try:
+            cv.make_poly_collection('single')
+            ctx.check(False, 'a variable with a leftover dimension of length one is refused with ValueError')
+        except ValueError:
+            ctx.check(True, 'a variable with a leftover dimension of length one is refused with ValueError')
         if other_grid is not None:
             # its values belong to nodes, not to cells: painting them on the cell polygons would pair values with the
             # wrong places, so anything but a refusal is wrong (which exception is raised is not prescribed)
@@ -200,6 +207,13 @@ def body(ctx, conv, shape, bounds, layout, nan_cells=None, mesh_opts=None, mode=
             ctx.check(True, 'vector components with leftover dimensions are refused')
         except Exception:
             ctx.check(not ctx.symbolic, 'vector components with leftover dimensions are refused')
+        try:
+            cv.make_quiver('axes' if ctx.symbolic else None, 'single', 'single')
+            ctx.check(False, 'vector components with a leftover dimension of length one are refused')
+        except ValueError:
+            ctx.check(True, 'vector components with a leftover dimension of length one are refused')
+        except Exception:
+            ctx.check(not ctx.symbolic, 'vector components with a leftover dimension of length one are refused')
 
 
 def body_animate(ctx, conv):
